@@ -66,9 +66,11 @@ func init() {
 		add(i < 4, fmt.Sprintf("TimeSpan(%v)", x), func() *variants.Variant { return variants.VariantFromTimeSpan(x) })
 	}
 	zoneA := time.FixedZone("A", 3600)
-	for i, x := range []time.Time{{}, time.Unix(0, 0).UTC(), time.Date(2020, 2, 29, 13, 14, 15, 123456789, time.UTC), time.Date(2020, 2, 29, 14, 14, 15, 123456789, zoneA), time.Date(1999, 12, 31, 23, 59, 59, 0, time.UTC), time.Unix(86400, 0).UTC(), time.Date(2024, 1, 1, 0, 30, 0, 0, time.FixedZone("E", 5*3600)), time.Date(2024, 1, 7, 23, 30, 0, 0, time.FixedZone("W", -8*3600))} {
+	for i, x := range []time.Time{{}, time.Unix(0, 0).UTC(), time.Date(2020, 2, 29, 13, 14, 15, 123456789, time.UTC), time.Date(2020, 2, 29, 14, 14, 15, 123456789, zoneA), time.Date(1999, 12, 31, 23, 59, 59, 0, time.UTC), time.Unix(86400, 0).UTC(), time.Date(2024, 1, 1, 0, 30, 0, 0, time.FixedZone("E", 5*3600)), time.Date(2024, 1, 7, 23, 30, 0, 0, time.FixedZone("W", -8*3600)),
+		// before the epoch with a fraction of a second (flooring and truncating the seconds differ), and one nanosecond before it
+		time.Date(1969, 12, 31, 23, 59, 58, 500000000, time.UTC), time.Unix(0, -1).UTC()} {
 		x := x
-		add(i < 4, "DateTime("+x.Format(time.RFC3339Nano)+")", func() *variants.Variant { return variants.VariantFromDateTime(x) })
+		add(i < 4 || i == 8, "DateTime("+x.Format(time.RFC3339Nano)+")", func() *variants.Variant { return variants.VariantFromDateTime(x) })
 	}
 	arr := func(xs ...*variants.Variant) *variants.Variant { return variants.VariantFromArray(xs) }
 	add(true, "Array[]", func() *variants.Variant { return arr() })
@@ -77,6 +79,9 @@ func init() {
 		return arr(variants.VariantFromInteger(1), variants.VariantFromString("a"), variants.EmptyVariant())
 	})
 	add(false, "Array[2.5,true]", func() *variants.Variant { return arr(variants.VariantFromDouble(2.5), variants.VariantFromBoolean(true)) })
+	// not-a-number inside a list, also nested: such a list equals nothing, its own clone included
+	add(true, "Array[NaN,1]", func() *variants.Variant { return arr(variants.VariantFromDouble(math.NaN()), variants.VariantFromInteger(1)) })
+	add(false, "Array[[NaN]]", func() *variants.Variant { return arr(arr(variants.VariantFromFloat(float32(math.NaN())))) })
 	add(false, "Array[[1],'b']", func() *variants.Variant { return arr(arr(variants.VariantFromInteger(1)), variants.VariantFromString("b")) })
 	// an array that grew through an indexed write past its end (the skipped positions are nulls)
 	add(true, "Array[grown:null,null,5]", func() *variants.Variant {
